@@ -61,3 +61,5 @@ open CalmVerif.Props.C07
 #check @ok_program_aligned
 #print axioms ok_program_keysPlain
 #check @ok_program_keysPlain
+#print axioms arguments_regression
+#check @arguments_regression
